@@ -11,12 +11,15 @@ Definition N_dec (n : N) : string :=
   if (n =? 32)%N then "32" else if (n =? 48)%N then "48" else if (n =? 64)%N then "64" else "?".
 Definition impl_view (a : spec_alg) : string * string * string * (string * string * string) :=
   (sa_name a, sa_kty a,
-   (if String.eqb (sa_kind a) "PKCS1v15" then "RSA"
-    else if String.eqb (sa_kind a) "ECDSA" then "EC" else sa_kind a),
+   (match sa_kind a with
+    | KNone => "none" | KHmac => "HMAC" | KPkcs => "RSA" | KPss => "PSS" | KEcdsa => "EC" | KEddsa => "EdDSA"
+    end),
    (sa_hash a, sa_curve a,
-    (if String.eqb (sa_kind a) "PKCS1v15" then "PKCS1v15"
-     else if String.eqb (sa_kind a) "PSS" then "PSS:mgf=" ++ sa_mgf a ++ ":salt=" ++ N_dec (sa_salt a)
-     else ""))).
+    (match sa_kind a with
+     | KPkcs => "PKCS1v15"
+     | KPss => "PSS:mgf=" ++ sa_mgf a ++ ":salt=" ++ N_dec (sa_salt a)
+     | _ => ""
+     end))).
 Definition row_view (r : jws_alg_row) :=
   (ja_name r, ja_key_type r, ja_family r, (ja_hash r, ja_curve r, ja_pad r)).
 
@@ -25,7 +28,7 @@ Proof. vm_compute. reflexivity. Qed.
 
 (* the coordinate length L of the Spec is ceil(bits / 8) of the curve the key must have *)
 Definition curve_len_ok : bool :=
-  forallb (fun a => if String.eqb (sa_kind a) "ECDSA"
+  forallb (fun a => if (match sa_kind a with KEcdsa => true | _ => false end)
                     then existsb (fun c => String.eqb (cv_name c) (sa_curve a) && ((cv_bits c + 7) / 8 =? sa_L a)%N) ec_curves
                     else true) spec_table.
 Lemma alg_curve_len : curve_len_ok = true.
@@ -101,3 +104,224 @@ Section C07.
     repeat split; try assumption.
   Qed.
 End C07.
+
+(* ---------------- completeness: what the Spec accepts, the Impl accepts ---------------- *)
+Section Completeness.
+  Variable json_loads : bytes -> res pv.
+  Variable mac : string -> N -> bytes -> res bytes.
+  Variable pk_verify : jws_alg_row -> N -> bytes -> bytes -> res bool.
+  Variable ec_verify : jws_alg_row -> N -> bytes -> Z -> Z -> res bool.
+  (* the Spec's primitives, indexed by the Spec row *)
+  Variable S_pk_verify : spec_alg -> N -> bytes -> bytes -> res bool.
+  Variable S_ec_verify : spec_alg -> N -> bytes -> Z -> Z -> res bool.
+  (* same primitive for the same parameters (name, key type, family, hash, curve, padding) *)
+  Hypothesis link_pk : forall r a kid m s, row_view r = impl_view a -> pk_verify r kid m s = S_pk_verify a kid m s.
+  Hypothesis link_ec : forall r a kid m x y, row_view r = impl_view a -> ec_verify r kid m x y = S_ec_verify a kid m x y.
+
+  Lemma view_fields r a : row_view r = impl_view a ->
+    ja_key_type r = sa_kty a /\ ja_hash r = sa_hash a /\ ja_curve r = sa_curve a /\
+    fam_of r = match sa_kind a with
+               | KNone => FNone | KHmac => FHmac | KPkcs => FRsa | KPss => FPss | KEcdsa => FEc | KEddsa => FEd
+               end.
+  Proof.
+    unfold row_view, impl_view. intro E. injection E. intros.
+    split; [assumption|]. split; [assumption|]. split; [assumption|].
+    unfold fam_of. match goal with H : ja_family r = _ |- _ => rewrite H end.
+    destruct (sa_kind a); reflexivity.
+  Qed.
+
+  Lemma decode_int_os2ip s : s <> [] -> decode_int s = Ok (OS2IP s).
+  Proof. destruct s; [congruence|reflexivity]. Qed.
+
+  Theorem spec_sig_impl r a k msg sig :
+    row_view r = impl_view a ->
+    spec_sig_ok mac S_pk_verify S_ec_verify a (k_id k) (k_kty k) (k_crv k) msg sig ->
+    check_key_op k "verify" = Ok tt ->
+    (sa_kind a = KEcdsa -> (k_bits k + 7) / 8 = sa_L a) ->
+    (* the key type of every row is the one its family expects (table fact, see table_kty) *)
+    fam_kty_ok r = true ->
+    alg_verify mac pk_verify ec_verify r k msg sig = Ok true.
+  Proof.
+    intros V (KT & S) CK EL FK. destruct (view_fields r a V) as (VK & VH & VC & VF).
+    unfold fam_kty_ok in FK. rewrite VF in FK. unfold alg_verify. rewrite VF.
+    assert (KTY : k_kty k = ja_key_type r) by congruence.
+    destruct (sa_kind a) eqn:KD.
+    - contradiction.
+    - rewrite CK. cbn [bind]. unfold mistyped. apply String.eqb_eq in FK. rewrite KTY, FK. cbn.
+      rewrite VH, S. cbn [bind]. rewrite (proj2 (beqb_eq sig sig) eq_refl). reflexivity.
+    - rewrite CK. cbn [bind]. unfold mistyped. apply String.eqb_eq in FK. rewrite KTY, FK. cbn.
+      rewrite (link_pk r a _ _ _ V). exact S.
+    - rewrite CK. cbn [bind]. unfold mistyped. apply String.eqb_eq in FK. rewrite KTY, FK. cbn.
+      rewrite (link_pk r a _ _ _ V). exact S.
+    - destruct S as (CR & LP & LEN & EV).
+      unfold mistyped. apply String.eqb_eq in FK. rewrite KTY, FK. cbn [String.eqb Ascii.eqb Bool.eqb].
+      rewrite CR, VC, String.eqb_refl. cbn [negb].
+      assert (LL : ec_len k = N.to_nat (sa_L a)) by (unfold ec_len; rewrite (EL eq_refl); reflexivity).
+      rewrite LL, LEN, Nat.eqb_refl. cbn [negb].
+      assert (LP' : (0 < N.to_nat (sa_L a))%nat) by lia.
+      rewrite !decode_int_os2ip.
+      + cbn [bind]. rewrite CK. cbn [bind]. rewrite (link_ec r a _ _ _ _ V). exact EV.
+      + intro E. apply (f_equal (@length N)) in E. rewrite skipn_length in E. cbn in E. lia.
+      + intro E. apply (f_equal (@length N)) in E. rewrite firstn_length in E. cbn in E. lia.
+    - destruct S as (CR & PV).
+      rewrite CK. cbn [bind]. unfold mistyped. apply String.eqb_eq in FK. rewrite KTY, FK. cbn.
+      unfold ed_curve_ok. destruct CR as [-> | ->]; cbn; rewrite (link_pk r a _ _ _ V); exact PV.
+  Qed.
+
+  Lemma decode_int_inv s z : decode_int s = Ok z -> z = OS2IP s.
+  Proof. destruct s; [discriminate|]. intro H. inversion H. reflexivity. Qed.
+
+  (* ... and conversely: what the algorithm model accepts, the Spec accepts *)
+  Theorem impl_sig_spec r a k msg sig :
+    row_view r = impl_view a -> fam_kty_ok r = true ->
+    (sa_kind a = KEcdsa -> k_crv k = sa_curve a -> (k_bits k + 7) / 8 = sa_L a /\ 0 < sa_L a) ->
+    alg_verify mac pk_verify ec_verify r k msg sig = Ok true ->
+    spec_sig_ok mac S_pk_verify S_ec_verify a (k_id k) (k_kty k) (k_crv k) msg sig.
+  Proof.
+    intros V FK EL. destruct (view_fields r a V) as (VK & VH & VC & VF).
+    unfold fam_kty_ok in FK. rewrite VF in FK. unfold alg_verify, spec_sig_ok. rewrite VF.
+    destruct (sa_kind a) eqn:KD; apply String.eqb_eq in FK || idtac.
+    - discriminate.
+    - intro H. bstep H as u CK. unfold mistyped in H.
+      destruct (String.eqb (k_kty k) "oct") eqn:E; [|discriminate]. apply String.eqb_eq in E.
+      bstep H as m M. inversion H as [Q]. apply beqb_eq in Q. subst m.
+      split; [congruence|]. rewrite <- VH. exact M.
+    - intro H. bstep H as u CK. unfold mistyped in H.
+      destruct (String.eqb (k_kty k) "RSA") eqn:E; [|destruct (String.eqb (k_kty k) "oct"); discriminate].
+      apply String.eqb_eq in E. split; [congruence|]. rewrite <- (link_pk r a _ _ _ V). exact H.
+    - intro H. bstep H as u CK. unfold mistyped in H.
+      destruct (String.eqb (k_kty k) "RSA") eqn:E; [|destruct (String.eqb (k_kty k) "oct"); discriminate].
+      apply String.eqb_eq in E. split; [congruence|]. rewrite <- (link_pk r a _ _ _ V). exact H.
+    - unfold mistyped.
+      destruct (String.eqb (k_kty k) "EC") eqn:E; [|destruct (String.eqb (k_kty k) "OKP"); discriminate].
+      apply String.eqb_eq in E.
+      destruct (String.eqb (k_crv k) (ja_curve r)) eqn:C; cbn [negb]; [|discriminate].
+      apply String.eqb_eq in C. destruct (EL eq_refl ltac:(congruence)) as [EL1 EL2].
+      assert (LL : ec_len k = N.to_nat (sa_L a)) by (unfold ec_len; rewrite EL1; reflexivity).
+      rewrite LL. destruct (Nat.eqb (length sig) (2 * N.to_nat (sa_L a))) eqn:LE; cbn [negb]; [|discriminate].
+      apply Nat.eqb_eq in LE. intro H. bstep H as rr R. bstep H as ss S2. bstep H as u CK.
+      apply decode_int_inv in R, S2. subst rr ss.
+      split; [congruence|]. split; [congruence|]. split; [exact EL2|]. split; [exact LE|].
+      rewrite <- (link_ec r a _ _ _ _ V). exact H.
+    - intro H. bstep H as u CK. unfold mistyped in H.
+      destruct (String.eqb (k_kty k) "OKP") eqn:E; [|discriminate]. apply String.eqb_eq in E.
+      unfold ed_curve_ok in H.
+      destruct (String.eqb (k_crv k) "Ed25519") eqn:C1; [apply String.eqb_eq in C1|
+        destruct (String.eqb (k_crv k) "Ed448") eqn:C2; [apply String.eqb_eq in C2|discriminate]];
+        cbn [orb] in H; (split; [congruence|]); (split; [auto|]); rewrite <- (link_pk r a _ _ _ V); exact H.
+  Qed.
+
+  (* compact serialization: for EVERY header octet string hdr (any JSON spelling) *)
+  Theorem verify_is_spec_complete hdr h payload sseg sig src algs r a k :
+    bytes_ok hdr = true -> bytes_ok payload = true -> no_dot sseg = true ->
+    (* RFC 7515 5.2 steps 2-5: the header octets parse to an object with a valid set of members *)
+    json_loads hdr = Ok (PDict h) -> check_header (reg15 algs) (PDict h) = Ok tt ->
+    (* the algorithm named by the header, allowed by the application; its Spec row *)
+    (exists algv, dget h s_alg = Some algv /\ get_alg (reg15 algs) algv = Ok r) ->
+    row_view r = impl_view a ->
+    (* the key resolves and may be used for verifying signatures *)
+    guess_key src (PDict h) = Ok k -> check_use k = Ok tt -> check_key_op k "verify" = Ok tt ->
+    (sa_kind a = KEcdsa -> (k_bits k + 7) / 8 = sa_L a) ->
+    b64d sseg = Ok sig ->
+    (* the Spec accepts *)
+    spec_verify_compact mac S_pk_verify S_ec_verify a (k_id k) (k_kty k) (k_crv k) hdr payload sig ->
+    exists o, deserialize_compact json_loads mac pk_verify ec_verify
+                (b64e hdr ++ 46 :: b64e payload ++ 46 :: sseg) src algs = Ok o /\
+              co_protected o = PDict h /\ co_payload o = payload.
+  Proof.
+    intros BH BP ND JL CH (algv & DA & GA) V GK CU CK EL BS SP.
+    assert (FK : fam_kty_ok r = true).
+    { pose proof table_kty as T. rewrite forallb_forall in T. apply T. eapply get_alg_in; exact GA. }
+    pose proof (spec_sig_impl r a k _ sig V SP CK EL FK) as AV.
+    destruct (view_fields r a V) as (VK & _). destruct SP as (KT & _).
+    unfold deserialize_compact, deserialize_compact_rg, extract_compact.
+    rewrite split3 by (try apply b64e_no_dot; assumption).
+    unfold decode_header, json_b64decode. rewrite (b64_roundtrip hdr BH). cbn [bind]. rewrite JL.
+    cbn [to_decode_error]. unfold dmem. rewrite DA. cbn [bind].
+    rewrite (b64_roundtrip payload BP). cbn [bind].
+    unfold validate_compact. cbn [co_protected co_payload co_hseg co_pseg co_sseg].
+    rewrite CH. cbn [bind]. rewrite GK. cbn [bind]. rewrite CU. cbn [bind py_getitem_str]. rewrite DA. cbn [bind].
+    rewrite GA. cbn [bind]. unfold check_key_type.
+    replace (String.eqb (k_kty k) (ja_key_type r)) with true by (symmetry; apply String.eqb_eq; congruence).
+    cbn [bind]. unfold verify_compact. cbn [co_hseg co_pseg co_sseg]. rewrite BS. cbn [bind].
+    unfold spec_signing_input in AV. rewrite AV. cbn [bind]. eexists. split; [reflexivity|]. auto.
+  Qed.
+
+  (* flattened JSON serialization with a protected header (any spelling) and an
+     optional unprotected header uh *)
+  Theorem verify_flat_is_spec_complete hdr h uh payload sseg sig src algs r a k :
+    bytes_ok hdr = true -> bytes_ok payload = true ->
+    json_loads hdr = Ok (PDict h) ->
+    let m := {| m_protected := Some (PDict h); m_header := uh |} in
+    forall headers, member_headers m = Ok headers ->
+    check_header (reg15 algs) (PDict headers) = Ok tt ->
+    (exists algv, dget headers s_alg = Some algv /\ get_alg (reg15 algs) algv = Ok r) ->
+    row_view r = impl_view a ->
+    guess_key src (PDict headers) = Ok k -> check_use k = Ok tt -> check_key_op k "verify" = Ok tt ->
+    (sa_kind a = KEcdsa -> (k_bits k + 7) / 8 = sa_L a) ->
+    b64d sseg = Ok sig ->
+    spec_verify_compact mac S_pk_verify S_ec_verify a (k_id k) (k_kty k) (k_crv k) hdr payload sig ->
+    exists o, deserialize_json json_loads mac pk_verify ec_verify
+                (JFlat (Some (b64e payload))
+                   {| js_protected := Some (b64e hdr); js_header := uh; js_signature := Some sseg |}) src algs = Ok o /\
+              jo_members o = [m] /\ jo_payload o = payload.
+  Proof.
+    intros BH BP JL m headers MH CH (algv & DA & GA) V GK CU CK EL BS SP.
+    assert (FK : fam_kty_ok r = true).
+    { pose proof table_kty as T. rewrite forallb_forall in T. apply T. eapply get_alg_in; exact GA. }
+    pose proof (spec_sig_impl r a k _ sig V SP CK EL FK) as AV.
+    destruct (view_fields r a V) as (VK & _). destruct SP as (KT & _).
+    assert (AA : all_ascii (b64e hdr) = true).
+    { unfold all_ascii. pose proof (b64e_alphabet _ BH) as AL.
+      rewrite forallb_forall in *. intros c Hc. specialize (AL c Hc). apply in_alphabet_spec in AL. lia. }
+    unfold deserialize_json, deserialize_json_rg, extract_flattened_json, decode_payload. cbn [of_opt bind].
+    rewrite (b64_roundtrip payload BP). cbn [bind js_signature of_opt].
+    unfold signature_to_member. cbn [js_protected js_header]. rewrite AA.
+    unfold json_b64decode. rewrite (b64_roundtrip hdr BH). cbn [bind]. rewrite JL. cbn [bind is_dict].
+    unfold verify_flattened_json. cbn [jo_members jo_sigs jo_pseg fst snd].
+    unfold verify_signature. fold m. rewrite MH. cbn [bind]. rewrite CH. cbn [bind py_getitem_str]. rewrite DA. cbn [bind].
+    rewrite GA. cbn [bind]. rewrite GK. cbn [bind]. rewrite CU. cbn [bind]. unfold check_key_type.
+    replace (String.eqb (k_kty k) (ja_key_type r)) with true by (symmetry; apply String.eqb_eq; congruence).
+    cbn [bind js_protected js_signature of_opt]. rewrite BS. cbn [bind].
+    unfold spec_signing_input in AV. rewrite AV. cbn [bind]. eexists. split; [reflexivity|]. auto.
+  Qed.
+
+  Lemma row_has_spec r : In r jws_alg_table -> exists a, In a spec_table /\ row_view r = impl_view a.
+  Proof.
+    intro IN. apply (in_map row_view) in IN. rewrite alg_params in IN.
+    apply in_map_iff in IN. destruct IN as (a & E & IA). exists a. auto.
+  Qed.
+
+  (* soundness in Spec terms: an accepted compact JWS is one the Spec accepts, for a
+     row of the Spec table, the key the header resolves to and exactly the received
+     header octets and payload *)
+  Theorem verify_is_spec_sound_spec hdr payload sseg src algs o :
+    bytes_ok hdr = true -> bytes_ok payload = true -> no_dot sseg = true ->
+    (* EC keys have the coordinate size of their curve *)
+    (forall k a, In a spec_table -> sa_kind a = KEcdsa -> k_crv k = sa_curve a ->
+                 (k_bits k + 7) / 8 = sa_L a /\ 0 < sa_L a) ->
+    deserialize_compact json_loads mac pk_verify ec_verify
+      (b64e hdr ++ 46 :: b64e payload ++ 46 :: sseg) src algs = Ok o ->
+    json_loads hdr = Ok (co_protected o) /\ co_payload o = payload /\
+    exists a k sig, In a spec_table /\ guess_key src (co_protected o) = Ok k /\ b64d sseg = Ok sig /\
+      py_getitem_str (co_protected o) s_alg = Ok (PStr (asc (sa_name a))) /\
+      spec_verify_compact mac S_pk_verify S_ec_verify a (k_id k) (k_kty k) (k_crv k) hdr payload sig.
+  Proof.
+    intros BH BP ND KS H.
+    destruct (verify_is_spec_sound json_loads mac pk_verify ec_verify hdr payload sseg src algs o BH BP ND H)
+      as (JL & P & (algv & r & k & sig & CH & GA & GR & GK & CU & BS & AV)).
+    split; [exact JL|]. split; [exact P|].
+    pose proof (get_alg_in _ _ _ GR) as IN. destruct (row_has_spec r IN) as (a & IA & V).
+    assert (FK : fam_kty_ok r = true).
+    { pose proof table_kty as T. rewrite forallb_forall in T. apply T. exact IN. }
+    exists a, k, sig. repeat (split; [assumption|]). split.
+    - (* the name in the header is the name of the row *)
+      unfold get_alg in GR. destruct algv; try discriminate. unfold find_alg in GR.
+      destruct (find (fun r0 => str_eqb (asc (ja_name r0)) s) jws_alg_table) as [r'|] eqn:F; [|discriminate].
+      pose proof (find_some _ _ F) as [_ E]. apply str_eqb_eq in E.
+      match type of GR with (if ?c then _ else _) = _ => destruct c end; [|discriminate].
+      inversion GR; subst r'. rewrite GA. unfold row_view, impl_view in V. injection V. intros. congruence.
+    - apply (impl_sig_spec r a k _ sig V FK); [|exact AV].
+      intros KD CR. apply KS; assumption.
+  Qed.
+End Completeness.
